@@ -3,6 +3,7 @@ instances of the semantic parameters (`re` sub-language, content equality throug
 model, `==` on property values), answer encoding. -/
 import PyOak.Decode
 import PyOak.Model.PatternParse
+import PyOak.Model.PatternMulti
 import PyOak.Handle.Encode
 import PyOak.Handle.XPath
 namespace PyOak
@@ -158,17 +159,11 @@ def handlePMulti (args : List Sexp) : Option Sexp := do
   let rules ← ((field? args "rules").getD []).mapM fun
     | .list [n, t] => do pure ((← asStr? n), (← asStr? t))
     | _ => none
-  let names := rules.map (·.1)
-  -- `if len({pd[0] for pd in pattern_defs}) != len(pattern_defs): raise`
-  if names.eraseDups.length != names.length then pure defErr else
-  let compiled := rules.map fun (n, t) => (n, compilePattern K t)
-  if compiled.any (fun c => match c.2 with | .error _ => true | .ok _ => false) then pure defErr else
-  let tbl : List (Str × Matcher) := compiled.filterMap fun c => match c.2 with
-    | .ok m => some (c.1, m)
-    | .error _ => none
-  let order := match field? args "order" with
-    | some o => o.filterMap asStr?
-    | none => names
+  -- `MultiPatternMatcher.__init__` (Model/PatternMulti.lean): unique names, every definition compiles
+  match multiInit K rules with
+  | none => pure defErr
+  | some tbl =>
+  let order := ruleOrder tbl ((field? args "order").map (·.filterMap asStr?))
   let root ← decodeTree env (← field1? args "tree")
   let n ← findUid root (← asNat? (← field1? args "node"))
   match multiMatch theSem tbl order n with
